@@ -162,7 +162,11 @@ func (w *Writer) Commit(rs RevSpec) []byte {
 			var hdr, body bytes.Buffer
 			for idx, num := range g {
 				fmt.Fprintf(&hdr, "%d %d ", num, body.Len())
-				body.Write(Serialise(set[num], w.st, w.r))
+				member := set[num]
+				if w.Hook != nil {
+					member = w.Hook("obj", num, member)
+				}
+				body.Write(Serialise(member, w.st, w.r))
 				body.WriteString(sim.Pick(w.r, []string{" ", "\n", w.eol()}))
 				locs[num] = loc{2, cnum, idx}
 			}
